@@ -509,7 +509,8 @@ class Server(utils.EventEmitter):
                 logger.warning(color('!!! GATT Indicate timeout', 'red'))
                 raise TimeoutError(f'GATT timeout for {indication.name}') from error
             finally:
-                self.pending_confirmations[bearer] = None
+                if bearer in self.pending_confirmations:
+                    self.pending_confirmations[bearer] = None
 
     async def _notify_or_indicate_subscribers(
         self,
@@ -560,7 +561,10 @@ class Server(utils.EventEmitter):
     def on_disconnection(self, bearer: att.Bearer) -> None:
         self.subscribers.pop(bearer, None)
         self.indication_semaphores.pop(bearer, None)
-        self.pending_confirmations.pop(bearer, None)
+        pending_confirmation = self.pending_confirmations.pop(bearer, None)
+        if pending_confirmation is not None and not pending_confirmation.done():
+            # No confirmation will ever come: don't leave the sender waiting
+            pending_confirmation.cancel()
 
     def on_gatt_pdu(self, bearer: att.Bearer, att_pdu: att.ATT_PDU) -> None:
         logger.debug(f'GATT Request to server: {_bearer_id(bearer)} {att_pdu}')
